@@ -351,6 +351,25 @@ type TTri struct {
 	N    int32
 }
 
+// TSelfTagged: types that are their own driver.Valuer / sql.Scanner under every tag.  Valuer.Value asks for
+// driver.Valuer and Scanner.Scan for sql.Scanner before either looks at the tags, so the tag must not matter.
+type TSelfTagged struct {
+	Id  int64           `sql:",primary"`
+	Vj  CVal            `sql:",json"`
+	Vb  CVal            `sql:",binary"`
+	Vs  CVal            `sql:",string"`
+	Vi  CVal            `sql:",implicitnull"`
+	Vjp *CVal           `sql:",json"`
+	Uj  CUuid           `sql:",json"`
+	Ub  *CUuid          `sql:",binary"`
+	Nj  sql.NullString  `sql:",json"`
+	Ns  *sql.NullString `sql:",string"`
+	Ni  sql.NullString  `sql:",implicitnull"`
+	Cj  Consent         `sql:",json"`
+	Ci  Consent         `sql:",implicitnull"`
+	Cb  *Consent        `sql:",binary"`
+}
+
 type tableInfo struct {
 	name string
 	zero interface{}
@@ -360,7 +379,7 @@ type tableInfo struct {
 var catalogue = []tableInfo{
 	{"ints", TInts{}, nil}, {"uints", TUints{}, nil}, {"floats", TFloats{}, nil}, {"text", TText{}, nil},
 	{"times", TTime{}, nil}, {"implicit", TImplicit{}, nil}, {"tagged", TTagged{}, nil}, {"mixed", TMixed{}, nil},
-	{"gaps", TGaps{}, nil}, {"namedbytes", TNamedBytes{}, nil}, {"self", TSelf{}, nil}, {"self2", TSelf2{}, nil}, {"tri", TTri{}, nil}, {"jsonwide", TJsonWide{}, nil}, {"jsonodd", TJsonOdd{}, nil},
+	{"gaps", TGaps{}, nil}, {"namedbytes", TNamedBytes{}, nil}, {"self", TSelf{}, nil}, {"self2", TSelf2{}, nil}, {"tri", TTri{}, nil}, {"selftagged", TSelfTagged{}, nil}, {"jsonwide", TJsonWide{}, nil}, {"jsonodd", TJsonOdd{}, nil},
 }
 
 // TSelf2 doubles the weight of the self-scanning types in the catalogue (plain copies of the columns).
